@@ -440,6 +440,17 @@ def kernel_cases(build, obs=()):
             cases.append((f'modorder:{a.to_bytes(nb, "little").hex()}', ' '.join(le(int.from_bytes(a.to_bytes(nb, "little"), "little") % FIELDS[G], 48 if G == 'Fp' else 32) for G in ('Fq', 'Fr', 'Fp')), f'from_le_bytes_mod_order feeding {a} to {F} to_montgomery'))
     return cases
 
+def deser_mode_cases(build):
+    from .poly import FIELDS
+    cases = []
+    if build != 'ark': return cases
+    for F, f in (('Fq', 'q'), ('Fr', 'r'), ('Fp', 'p')):
+        p_ = FIELDS[F]; nb = 48 if F == 'Fp' else 32
+        for v in (0, 5, p_ - 1, p_, p_ + 1, p_ + 5, 2 ** (8 * nb) - 1, 2 * p_ if 2 * p_ < 2 ** (8 * nb) else p_ + 7):
+            one = ('ok ' + le(v, nb)) if v < p_ else 'err'
+            cases.append((f'{f}.deser_modes:{le(v, nb)}', ' | '.join([one] * 4), f'{F}::deserialize_with_mode of the integer {v} in the four (Compress, Validate) modes'))
+    return cases
+
 def ord_cases(build, obs=()):
     from .poly import FIELDS
     cases = []
@@ -557,6 +568,7 @@ def r1cs_honest_cases(build):
     for k in (1, 2, 5, 7, 22):
         for rep in '0123': cases.append((f'r1cs:constant,{le(k)},{rep}', 'value_ok=true sum_ok=true sat=true', f'ElementVar::constant([{k}]B in representation {rep}) and constant + witness'))
     for a, b, c in ((3, 5, 0), (3, 5, 1), (0, 7, 1)): cases.append((f'r1cs:select,{le(a)},{le(b)},{c}', 'sat=true value_ok=true', f'conditionally_select({c}, [{a}]B, [{b}]B)'))
+    for k in (1, 3, 5, 22): cases.append((f'r1cs:alias,{le(k)}', 'orig_ok=true dbl_ok=true diff_ok=true sat=true', f'doubling a clone of the variable holding [{k}]B leaves the original unchanged'))
     # completeness in the other direction: what the native decoder rejects, a gadget on variables allocated from that encoding rejects too
     for s_ in (1, 2, 4, 6, 10, 12, 3, 5):
         if decode_expect(le_bytes(s_)).startswith('err'): cases.append((f'r1cs:eqinvalid,{le(s_)}', 'sat=false native_valid=false', f'enforce_equal on two variables allocated from the invalid encoding {s_}'))
@@ -573,6 +585,9 @@ def r1cs_adversarial_cases(build, obs=()):
         cases.append((f'r1cs:isqrt,{le(0)},hint=1:{y}', ('re', r'^sat=false '), 'isqrt on den = 0 with the substituted hint (true, +-1) must not be satisfiable'))
         cases.append((f'r1cs:decode,{le(Q - 1)},hint=1:{y}', ('re', r'^sat=false '), 'in-circuit decode of s = q - 1 with the substituted hint (true, +-1) must not be satisfiable'))
     if only_known: return cases
+    # den = 0 with the flag claimed false and a non-zero root (native: (false, 0))
+    for y in (1, 2, 5, Q - 1):
+        cases.append((f'r1cs:isqrt,{le(0)},hint=0:{le(y)}', ('re', r'^sat=false '), f'isqrt on den = 0 with the substituted hint (false, {y}) must not be satisfiable'))
     # honest prover on invalid encodings (non-square denominator, negative s)
     for b in byte_strings():
         v = int.from_bytes(b, 'little')
@@ -599,6 +614,10 @@ def r1cs_adversarial_cases(build, obs=()):
         cases.append((f'r1cs:alloc,{le(x)},{le(y)}', 'sat=false', f'Element witness allocation with the on-curve non-group coordinates of {what}'))
         cases.append((f'r1cs:allocaff,{le(x)},{le(y)}', 'sat=false', f'AffinePoint witness allocation with the on-curve non-group coordinates of {what}'))
     for x, y in ((2, 3), (1, 1)): cases.append((f'r1cs:allocaff,{le(x)},{le(y)}', 'sat=false', f'AffinePoint witness allocation with the off-curve coordinates ({x}, {y})'))
+    # enforce_not_equal must be unsatisfiable on one element reached through two computations (possibly two coset representatives)
+    for a, b in ((5, 7), (3, 11), (1, 1), (22, 25), (2, 9)):
+        for mode in ('addsub', 'constrep', 'constrep1'):
+            cases.append((f'r1cs:neq,{mode},{le(a)},{le(b)}', 'base=true native_equal=true not_equal_satisfied=false', f'enforce_not_equal on [{a}]B and the same element obtained as {mode} must be unsatisfiable'))
     # the same invalid encoding allocated twice from a bare field element and compared
     for s_ in (1, 2, 4, 6, 10, 12, 3, 5):
         if decode_expect(le_bytes(s_)).startswith('err'): cases.append((f'r1cs:eqinvalid,{le(s_)}', 'sat=false native_valid=false', f'enforce_equal on two variables allocated from the invalid encoding {s_}'))
@@ -616,12 +635,12 @@ def shape_cases(build, obs=()):
 def le_bytes(v): return v.to_bytes(32, 'little')
 
 BATTERIES = {
-    'C15': shape_cases,
+    'C15': lambda b, obs=(): shape_cases(b, obs) + r1cs_honest_cases(b),
     'C13': lambda b: r1cs_honest_cases(b),
     'C14': r1cs_adversarial_cases,
-    'C16': lambda b, obs=(): ord_cases(b, obs) + bls_cases(b),
+    'C16': lambda b, obs=(): ord_cases(b, obs) + deser_mode_cases(b) + [c for c in field_cases(b) if c[0].startswith('p.')] + bls_cases(b),
     'C10': lambda b, obs=(): kernel_cases(b, obs) + field_cases(b),
-    'C11': lambda b, obs=(): kernel_cases(b, obs) + ord_cases(b, obs) + conversion_cases(b),
+    'C11': lambda b, obs=(): kernel_cases(b, obs) + ord_cases(b, obs) + deser_mode_cases(b) + conversion_cases(b),
     'C12': lambda b, obs=(): kernel_cases(b, obs) + decode_cases(b) + encode_cases(b)[:300] + elligator_cases(b) + group_cases(b)[:200] + smul_cases(b)[:150] + coherence_cases(b)[:150] + const_cases(b) + field_cases(b)[:400] + conversion_cases(b),
     'C01': lambda b: roundtrip_cases(b),
     'C09': sqrt_cases,
